@@ -769,3 +769,221 @@ Proof.
 Qed.
 
 End NoisePipeline.
+
+(* ---------- weighted: the convolution moves by at most 2 eps scale ---------- *)
+
+Lemma wmean_bounds (dd pw : Z -> Q) a len eps :
+  (0 < len)%nat ->
+  (forall j, (a <= j < a + Z.of_nat len)%Z -> 0 < pw j /\ - eps <= dd j /\ dd j <= eps) ->
+  - eps <= wsum (fun j => dd j * pw j) a len / wsum pw a len /\
+  wsum (fun j => dd j * pw j) a len / wsum pw a len <= eps.
+Proof.
+  intros Hl H.
+  assert (Wp : 0 < wsum pw a len) by (apply wsum_pos; [exact Hl|intros j Hj; apply H, Hj]).
+  assert (U : 0 <= wsum (fun j => eps * pw j - dd j * pw j) a len).
+  { apply wsum_nonneg. intros j Hj. destruct (H j Hj) as [P [L1 L2]]. nra. }
+  assert (L : 0 <= wsum (fun j => eps * pw j - (- dd j) * pw j) a len).
+  { apply wsum_nonneg. intros j Hj. destruct (H j Hj) as [P [L1 L2]]. nra. }
+  rewrite wsum_minus, wsum_scale in U.
+  rewrite wsum_minus, wsum_scale in L.
+  assert (E : wsum (fun j => - dd j * pw j) a len == - wsum (fun j => dd j * pw j) a len).
+  { rewrite (wsum_ext (fun j => - dd j * pw j) (fun j => (- (1)) * (dd j * pw j)) a len) by (intros; ring).
+    rewrite wsum_scale. ring. }
+  rewrite E in L. split.
+  - apply Qle_shift_div_l; [exact Wp|]. lra.
+  - apply Qle_shift_div_r; [exact Wp|]. lra.
+Qed.
+
+Lemma noise_conv_bound_w eps c sg w h scale k :
+  noise_within eps c sg -> length w = length c -> all_pos w -> 0 < scale ->
+  (1 <= h <= Z.of_nat (length c))%Z -> (1 <= k < Z.of_nat (length c))%Z ->
+  Qabs (qnth (haar_conv sg (Some w) h scale) k - qnth (haar_conv c (Some w) h scale) k) <= noise_bound_w eps scale.
+Proof.
+  intros Hn Hlw Hp Hs Hh Hk. pose proof Hn as [Hl _].
+  rewrite (haar_conv_w_closed sg) by (rewrite ?Hl; try exact Hlw; lia).
+  rewrite (haar_conv_w_closed c) by (try exact Hlw; lia).
+  set (dd := fun j => padded sg j - padded c j).
+  assert (Hhw : (1 <= h <= Z.of_nat (length w))%Z) by (rewrite Hlw; exact Hh).
+  assert (Hkw : (0 <= k < Z.of_nat (length w))%Z) by (rewrite Hlw; lia).
+  assert (R : forall s, (k - h <= s)%Z -> (s + h <= k + h)%Z ->
+            - eps <= wsum (fun j => dd j * padded w j) s (Z.to_nat h) / wsum (padded w) s (Z.to_nat h) /\
+            wsum (fun j => dd j * padded w j) s (Z.to_nat h) / wsum (padded w) s (Z.to_nat h) <= eps).
+  { intros s S1 S2. apply wmean_bounds; [lia|]. intros j Hj. split.
+    - apply (padded_Forall (fun x => 0 < x) w h k j Hp Hhw Hkw). lia.
+    - apply (padded_noise eps c sg j Hn). lia. }
+  assert (Wp : forall s, (k - h <= s)%Z -> (s + h <= k + h)%Z -> 0 < wsum (padded w) s (Z.to_nat h)).
+  { intros s S1 S2. apply wsum_pos; [lia|]. intros j Hj.
+    apply (padded_Forall (fun x => 0 < x) w h k j Hp Hhw Hkw). lia. }
+  assert (Sp : forall s, wsum (padded_prod sg w) s (Z.to_nat h)
+                         == wsum (padded_prod c w) s (Z.to_nat h) + wsum (fun j => dd j * padded w j) s (Z.to_nat h)).
+  { intros s. rewrite <- wsum_plus. apply wsum_ext. intros j Hj. unfold padded_prod, dd. ring. }
+  destruct (R k ltac:(lia) ltac:(lia)) as [A1 A2]. destruct (R (k - h)%Z ltac:(lia) ltac:(lia)) as [B1 B2].
+  pose proof (Wp k ltac:(lia) ltac:(lia)) as W1. pose proof (Wp (k - h)%Z ltac:(lia) ltac:(lia)) as W2.
+  assert (E : scale * haar_window_w sg w h k - scale * haar_window_w c w h k ==
+              scale * (wsum (fun j => dd j * padded w j) k (Z.to_nat h) / wsum (padded w) k (Z.to_nat h)
+                       - wsum (fun j => dd j * padded w j) (k - h)%Z (Z.to_nat h) / wsum (padded w) (k - h)%Z (Z.to_nat h))).
+  { unfold haar_window_w. rewrite (Sp k), (Sp (k - h)%Z). field. split; lra. }
+  rewrite E. unfold noise_bound_w. apply abs_le_iff. split; nra.
+Qed.
+
+(* ---------- flat profiles ---------- *)
+
+Lemma flat_noise_within eps c sg : flat_within eps c sg -> noise_within eps (repeat c (length sg)) sg.
+Proof.
+  intros H. split; [rewrite repeat_length; reflexivity|]. rewrite repeat_length. intros i Hi.
+  unfold at_ at 2. rewrite nth_repeat_lt by lia. apply H, Hi.
+Qed.
+
+Lemma Forall0_qnth (l : list Q) k : Forall (fun x => x == 0) l -> qnth l k == 0.
+Proof.
+  intros H. unfold qnth. destruct (Nat.lt_ge_cases (Z.to_nat k) (length l)) as [L|L].
+  - apply (nth_Forall (fun x => x == 0) l _ H L).
+  - rewrite nth_overflow by exact L. reflexivity.
+Qed.
+
+Lemma noisy_flat_conv_u eps c sg h scale k :
+  flat_within eps c sg -> 0 <= eps -> 0 < scale -> (1 <= h)%Z -> (0 <= k < Z.of_nat (length sg))%Z ->
+  Qabs (qnth (haar_conv sg None h scale) k) <= noise_bound_u h eps scale.
+Proof.
+  intros Hf He Hs Hh Hk.
+  assert (B0 : 0 <= noise_bound_u h eps scale).
+  { unfold noise_bound_u. assert (E : 0 == 0 / scale) by (unfold Qdiv; ring). rewrite E.
+    apply div_le_pos; [exact Hs|]. assert (0 < inject_Z h) by (apply inject_Z_pos; lia). nra. }
+  destruct (Z_lt_le_dec (Z.of_nat (length sg)) h) as [Sh|Sh].
+  - rewrite (Forall0_qnth _ k (haar_conv_short sg None h scale Sh)). exact B0.
+  - pose proof (noise_conv_bound_u eps (repeat c (length sg)) sg h scale k (flat_noise_within eps c sg Hf) Hs) as Nb.
+    rewrite repeat_length in Nb. specialize (Nb ltac:(lia) Hk).
+    assert (Z0 : qnth (haar_conv (repeat c (length sg)) None h scale) k == 0).
+    { apply Forall0_qnth. apply (flat_conv_zero c); [apply all_eq_repeat|exact I|exact Hh]. }
+    rewrite Z0 in Nb. assert (E : qnth (haar_conv sg None h scale) k - 0 == qnth (haar_conv sg None h scale) k) by ring.
+    rewrite E in Nb. exact Nb.
+Qed.
+
+Lemma noisy_flat_conv_w eps c sg w h scale k :
+  flat_within eps c sg -> length w = length sg -> all_pos w ->
+  0 <= eps -> 0 < scale -> (1 <= h)%Z -> (0 <= k < Z.of_nat (length sg))%Z ->
+  Qabs (qnth (haar_conv sg (Some w) h scale) k) <= noise_bound_w eps scale.
+Proof.
+  intros Hf Hlw Hp He Hs Hh Hk.
+  assert (B0 : 0 <= noise_bound_w eps scale) by (unfold noise_bound_w; nra).
+  destruct (Z_lt_le_dec (Z.of_nat (length sg)) h) as [Sh|Sh].
+  - rewrite (Forall0_qnth _ k (haar_conv_short sg (Some w) h scale Sh)). exact B0.
+  - destruct (Z.eq_dec k 0) as [->|K0]; [rewrite haar_conv_0; exact B0|].
+    pose proof (noise_conv_bound_w eps (repeat c (length sg)) sg w h scale k (flat_noise_within eps c sg Hf)) as Nb.
+    rewrite repeat_length in Nb. specialize (Nb Hlw Hp Hs ltac:(lia) ltac:(lia)).
+    assert (Z0 : qnth (haar_conv (repeat c (length sg)) (Some w) h scale) k == 0).
+    { apply Forall0_qnth. apply (flat_conv_zero c); [apply all_eq_repeat| |exact Hh].
+      split; [rewrite repeat_length; exact Hlw|exact Hp]. }
+    rewrite Z0 in Nb.
+    assert (E : qnth (haar_conv sg (Some w) h scale) k - 0 == qnth (haar_conv sg (Some w) h scale) k) by ring.
+    rewrite E in Nb. exact Nb.
+Qed.
+
+Lemma keep_ge_none conv tau peaks :
+  (forall x, In x peaks -> Qabs (qnth conv x) < tau) -> keep_ge conv tau peaks = [].
+Proof.
+  intros H. unfold keep_ge. induction peaks as [|x t IH]; [reflexivity|]. cbn [filter].
+  assert (F : Qle_bool tau (Qabs (at_ conv x)) = false).
+  { destruct (Qle_bool tau (Qabs (at_ conv x))) eqn:E; [|reflexivity].
+    apply Qle_bool_iff in E. specialize (H x (or_introl eq_refl)). unfold qnth in H. unfold at_ in E. lra. }
+  rewrite F. apply IH. intros y Hy. apply H. right. exact Hy.
+Qed.
+
+Lemma range_wmean_within d w s e c eps :
+  (s < e)%Z -> (forall j, (s <= j < e)%Z -> 0 < at_ w j /\ Qabs (at_ d j - c) <= eps) ->
+  Qabs (range_wmean d w s e - c) <= eps.
+Proof.
+  intros Hse Hb. unfold range_wmean, range_weight.
+  destruct (wmean_bounds (fun j => at_ d j - c) (at_ w) s (Z.to_nat (e - s)) eps) as [A1 A2]; [lia| |].
+  { intros j Hj. destruct (Hb j ltac:(lia)) as [P Ab]. split; [exact P|]. apply abs_le_iff, Ab. }
+  assert (Wp : 0 < wsum (at_ w) s (Z.to_nat (e - s))).
+  { apply wsum_pos; [lia|]. intros j Hj. apply (Hb j). lia. }
+  assert (Sp : wsum (fun j => (at_ d j - c) * at_ w j) s (Z.to_nat (e - s))
+               == wsum (fun j => at_ d j * at_ w j) s (Z.to_nat (e - s)) - c * wsum (at_ w) s (Z.to_nat (e - s))).
+  { rewrite <- wsum_scale, <- wsum_minus. apply wsum_ext. intros j Hj. ring. }
+  rewrite Sp in A1, A2.
+  assert (E : wsum (fun j => at_ d j * at_ w j) s (Z.to_nat (e - s)) / wsum (at_ w) s (Z.to_nat (e - s)) - c
+              == (wsum (fun j => at_ d j * at_ w j) s (Z.to_nat (e - s)) - c * wsum (at_ w) s (Z.to_nat (e - s)))
+                 / wsum (at_ w) s (Z.to_nat (e - s))).
+  { field. lra. }
+  rewrite E. apply abs_le_iff. split; assumption.
+Qed.
+
+Section NoiseFlat.
+Variable scale_u scale_w : Z -> Q.
+Variable pvals : Z -> list Q.
+Variable absorb : Z -> bool.
+Hypothesis scale_u_pos : forall h, 0 < scale_u h.
+Hypothesis scale_w_pos : forall h, 0 < scale_w h.
+
+(* how far noise of magnitude eps can move a convolution value at a level *)
+Definition level_noise_bound (wt : option (list Q)) (eps : Q) (h : Z) : Q :=
+  match wt with
+  | None => noise_bound_u h eps (scale_u h)
+  | Some _ => noise_bound_w eps (scale_w h)
+  end.
+
+Lemma noisy_flat_level eps c sg wt h k :
+  flat_within eps c sg -> weights_ok sg wt -> 0 <= eps -> (1 <= h)%Z -> (0 <= k < Z.of_nat (length sg))%Z ->
+  Qabs (qnth (conv_level scale_u scale_w sg wt h) k) <= level_noise_bound wt eps h.
+Proof.
+  intros Hf Hw He Hh Hk. unfold conv_level, level_noise_bound. destruct wt as [w|].
+  - destruct Hw as [Hlw Hp]. apply (noisy_flat_conv_w eps c); try assumption. apply scale_w_pos.
+  - apply (noisy_flat_conv_u eps c); try assumption. apply scale_u_pos.
+Qed.
+
+Lemma noisy_flat_addon eps c sg wt q level :
+  flat_within eps c sg -> weights_ok sg wt -> 0 <= eps -> (0 <= level)%Z ->
+  level_noise_bound wt eps (2 ^ level) < level_thres scale_u scale_w pvals absorb sg wt q level ->
+  level_addon scale_u scale_w pvals absorb sg wt q level = [].
+Proof.
+  intros Hf Hw He Hl Hthr. rewrite level_addon_keep. apply keep_ge_none. intros x Hx.
+  destruct (peaks_sorted (conv_level scale_u scale_w sg wt (2 ^ level))) as [_ R]. specialize (R x Hx).
+  unfold conv_level in R at 1. rewrite haar_conv_length in R.
+  pose proof (noisy_flat_level eps c sg wt (2 ^ level) x Hf Hw He ltac:(pose proof (Z.pow_pos_nonneg 2 level ltac:(lia) Hl); lia) ltac:(lia)). lra.
+Qed.
+
+Lemma noisy_flat_seg eps c sg wt q :
+  flat_within eps c sg -> weights_ok sg wt -> sg <> [] ->
+  (forall l, (1 <= l <= 5)%Z ->
+     level_noise_bound wt eps (2 ^ l) < level_thres scale_u scale_w pvals absorb sg wt q l) ->
+  let n := Zlength_nat sg in
+  let r := haar_seg scale_u scale_w pvals absorb sg wt q in
+  hr_breaks r = [] /\ hr_start r = [0%Z] /\ hr_end r = [(n - 1)%Z] /\ hr_size r = [n] /\
+  exists m, hr_mean r = [m] /\ Qabs (m - c) <= eps.
+Proof.
+  intros Hf Hw Hne Hthr n r.
+  assert (Hn : (0 < n)%Z) by (apply Zlength_pos, Hne).
+  assert (He : 0 <= eps).
+  { specialize (Hf 0%Z ltac:(unfold n, Zlength_nat in Hn; lia)).
+    pose proof (Qabs_nonneg (at_ sg 0 - c)). lra. }
+  assert (Hb : haar_breakpoints_over scale_u scale_w pvals absorb haar_levels sg wt q = []).
+  { unfold haar_breakpoints_over.
+    destruct (fold_single_or_none 0%Z (fun l => level_addon scale_u scale_w pvals absorb sg wt q l)
+                (fun l => (2 ^ (l - 1))%Z) ltac:(lia) haar_levels []) as [_ F2].
+    - intros l Hl. apply haar_levels_range in Hl. split; [apply Z.pow_nonneg; lia|]. right.
+      apply (noisy_flat_addon eps c); try assumption; [lia|apply Hthr, Hl].
+    - right. reflexivity.
+    - apply F2; [reflexivity|]. intros l Hl. apply haar_levels_range in Hl.
+      apply (noisy_flat_addon eps c); try assumption; [lia|apply Hthr, Hl]. }
+  unfold r, haar_seg. rewrite Hb. unfold haar_result_of.
+  cbn [hr_breaks hr_start hr_end hr_size hr_mean app map combine fst snd]. fold n. rewrite Z.sub_0_r.
+  repeat (split; [reflexivity|]).
+  eexists. split; [reflexivity|].
+  assert (Hbi : breaks_in (Zlength_nat sg) []) by (split; [constructor|intros x []]).
+  rewrite (segment_by_peaks_nth sg [] wt 0 n 0 Hne Hbi); [|left; reflexivity|lia].
+  assert (Hwl : wt_len_ok sg wt) by (destruct wt as [w|]; [destruct Hw as [Hlw _]; exact Hlw|exact I]).
+  pose proof (seg_mean_spec sg wt 0 n ltac:(lia) ltac:(unfold n, Zlength_nat; lia) Hwl) as Sm.
+  destruct wt as [w|]; cbn [is_segment_mean] in Sm.
+  - destruct Hw as [Hlw Hp].
+    assert (Hwp : forall j, (0 <= j < n)%Z -> 0 < at_ w j).
+    { intros j Hj. unfold at_. apply (nth_Forall (fun x => 0 < x) w _ Hp). rewrite Hlw. unfold n, Zlength_nat in Hj. lia. }
+    assert (Rw : 0 < range_weight w 0 n).
+    { unfold range_weight. apply wsum_pos; [lia|]. intros j Hj. apply Hwp. lia. }
+    destruct Sm as [Sm _]. rewrite (Sm Rw).
+    apply range_wmean_within; [lia|]. intros j Hj. split; [apply Hwp, Hj|].
+    apply Hf. unfold n, Zlength_nat in Hj. lia.
+  - rewrite Sm. apply range_mean_within; [lia|]. intros j Hj. apply Hf. unfold n, Zlength_nat in Hj. lia.
+Qed.
+
+End NoiseFlat.
